@@ -1,6 +1,6 @@
 \* heads (v8) under the three assumptions
 CONSTANTS NSubs = 1 NConn = 1 InitLen = 2 MaxLen = 4 MaxTag = 5 MaxReverts = 2 MaxL1 = 0 MaxPc = 0 MaxTx = 1 MaxGw = 0 MaxRecv = 0 MaxTicks = 0 MaxBack = 3 MaxGot = 6
-  Ver = 8 Kinds <- KHeads StartAtL1 <- NoL1 NoLag = TRUE QuietSub = TRUE ReorgPrio = TRUE TeeStage = TRUE Window = FALSE FixL1None = FALSE BlockIds <- BidsMed
+  Ver = 8 Kinds <- KHeads StartAtL1 <- NoL1 NoLag = TRUE QuietSub = TRUE ReorgPrio = TRUE TeeStage = TRUE Window = FALSE FixL1None = FALSE FixL1Order = FALSE BlockIds <- BidsMed
 INIT Init
 NEXT Next
 VIEW view
